@@ -29,6 +29,11 @@ RULE = ("honest: 1..4 sequential requests on one connection for blobs of generat
         "and stay mute; with an honest peer the verified identical blob must be there within its connect+reply+body time + 3 s, "
         "every connection attempt must end within peer_connect_timeout and every unanswered request within "
         "blob_download_timeout; non-trivial = timeouts differ and a peer is slower than the smaller one or never answers. "
+        "splitter: the fuzz target as a cheap Hypothesis part - an honest reply (header + body) to a real client protocol writing into "
+        "an in-memory blob, body assembled from protocol-JSON look-alikes / braces / quotes / random bytes, first fragment ending "
+        "-128..+127 bytes around the header end, up to 6 further fragment sizes; non-trivial = body contains a brace. atheris: "
+        "coverage-guided libFuzzer campaigns on the same target (body bytes and fragmentation chosen by the fuzzer; quick 2 x 8000, "
+        "thorough 16 x 600000 runs; seeded / empty corpus). "
         "server: real server against a scripted client sending a generated sequence from a catalogue of valid / invalid / oversized / "
         "garbage requests; client: real client against a scripted server applying one misbehaviour from a catalogue at request "
         "position 0..2 followed by an honest transfer on a fresh connection; non-trivial there = a misbehaviour (not the control). "
@@ -706,6 +711,134 @@ async def downloader_async(case, out, loop):
         await client_side.close()
 
 
+# =============================== part 1d: client splitter, cheap (in-memory blob), also the atheris target =============
+
+async def fuzz_honest_once(loop, body, cuts, known):
+    """An honest server's reply (json header naming sha384(body) / len(body), then body) reaches a real client protocol that
+    downloads into an in-memory blob, in fragments: the first ends (cuts[0] - 128) bytes after the header's closing brace, the
+    following ones are cuts[i] bytes long (0 -> 1), the rest comes whole.  Returns [(tag, detail)]."""
+    from lbry.blob_exchange.client import BlobExchangeClientProtocol
+    from lbry.blob.blob_file import BlobBuffer
+    h = hashlib.sha384(body).hexdigest()
+    blob = BlobBuffer(loop, h, len(body) if known else None)
+    client = BlobExchangeClientProtocol(loop, DOWNLOAD_T)
+    tc = PipeTransport(loop, client, ('5.6.7.8', 3333))
+    client.connection_made(tc)
+    task = asyncio.ensure_future(client.download_blob(blob))
+    vs = []
+    try:
+        for _ in range(20):
+            if tc.out:
+                break
+            await asyncio.sleep(0)
+        if not tc.out:
+            return [("splitter:no-request-sent", "")]
+        del tc.out[:]
+        hdr, _ = honest_reply(h, body)
+        stream = hdr + body
+        sizes = [max(1, len(hdr) + (cuts[0] if cuts else 128) - 128)] + [max(1, x) for x in cuts[1:]]
+        pos = 0
+        for n in sizes:
+            if pos >= len(stream):
+                break
+            tc.feed(stream[pos:pos + n])
+            pos += n
+            await asyncio.sleep(0)
+        if pos < len(stream):
+            tc.feed(stream[pos:])
+        try:
+            got, proto = await asyncio.wait_for(task, 60)
+        except asyncio.TimeoutError:
+            return [("splitter:download-hangs", "body %d bytes, first fragment %d, header %d" % (len(body), sizes[0], len(hdr)))]
+        except (Exception, asyncio.CancelledError) as e:
+            return [("splitter:download-raises:%s" % type(e).__name__, repr(e)[:200])]
+        where = "first fragment ends %+d bytes from the header end, body %d bytes, fatal=%r" % (sizes[0] - len(hdr), len(body), tc.fatal)
+        if tc.fatal is not None:
+            vs.append(("splitter:protocol-exception:%s" % type(tc.fatal).__name__, repr(tc.fatal)[:200] + " " + where))
+        if not blob.get_is_verified():
+            vs.append(("splitter:blob-not-verified", "returned %r; %s" % ((got, proto is not None), where)))
+            return vs
+        if got != len(body):
+            vs.append(("splitter:wrong-byte-count", "%d vs %d; %s" % (got, len(body), where)))
+        if proto is None:
+            vs.append(("splitter:connection-not-reusable", where))
+        with blob.reader_context() as r:
+            if r.read() != body:
+                vs.append(("splitter:buffer-differs", where))
+        return vs
+    finally:
+        if not task.done():
+            task.cancel()
+            try:
+                await task
+            except (Exception, asyncio.CancelledError):
+                pass
+        tc.close()
+        for _ in range(3):
+            await asyncio.sleep(0)
+
+
+BODY_PIECES = JSON_PREFIXES + [b'{', b'}', b'"', b'\\', b'{"incoming_blob": {"blob_hash": "', b'", "length": ', b'}}', b'[', b']', b' ', b'\n',
+                               b'{"a": "}"}', b'{"a": "\\"}"}', b'\x00', b'\xff', b'abc']
+
+
+def splitter_strategy(tier):
+    body = st.one_of(st.lists(st.one_of(st.sampled_from(BODY_PIECES), st.binary(min_size=1, max_size=4)), min_size=1, max_size=8).map(b"".join),
+                     st.binary(min_size=1, max_size=300))
+    return st.fixed_dictionaries({"body": body.map(lambda b: b.hex()), "known": st.booleans(),
+                                  "cuts": st.lists(st.one_of(st.integers(118, 138), st.integers(0, 255)), min_size=0, max_size=7)})
+
+
+def run_splitter(case):
+    out = Out()
+    loop = new_virtual_loop()
+    try:
+        body = bytes.fromhex(case["body"])
+        for tag, detail in loop.run_until_complete(fuzz_honest_once(loop, body, list(case["cuts"]), case["known"])):
+            out.violate(tag, detail)
+    finally:
+        close_loop(loop)
+    c0 = case["cuts"][0] if case["cuts"] else 128
+    out.label("first_cut:%s" % ("at_header_end" if c0 == 128 else "inside_header" if c0 < 128 else "inside_body"),
+              "body_has_brace" if b"}" in body else "body_no_brace", "known_length" if case["known"] else "unknown_length")
+    out.nontrivial = b"}" in body or b"{" in body
+    return out
+
+
+def fuzz_campaigns(tier, shard, nshards):
+    n, runs = (2, 8000) if tier == "quick" else (16, 600000)
+    for i in range(n):
+        if i % nshards == shard:
+            yield {"campaign": i, "runs": runs, "empty_corpus": i % 4 == 3, "max_len": 128 if i % 2 else 1024}
+
+
+def _fuzz_seed_inputs():
+    seeds = []
+    for i, body in enumerate(JSON_PREFIXES + [b"x", b"}" * 5, b'{"a": 1}{"b": 2}']):
+        for cut in (128, 120, 131):
+            seeds.append(bytes([i & 1, cut, 1, 1, 0, 7, 0, 0]) + body)
+    return seeds
+
+
+def run_fuzz_campaign(case):
+    from vlib.fuzzcamp import run_campaign
+    out = Out()
+    seed = int(os.environ.get("VERIF_SEED", "1") or 1) * 100 + case["campaign"]
+    found, stats = run_campaign("fuzz/atheris_c10.py", seed, case["runs"], case["max_len"],
+                                [] if case["empty_corpus"] else _fuzz_seed_inputs())
+    out.nontrivial = stats.get("number_of_executed_units", 0) >= case["runs"] // 2
+    out.sample = dict(case, stats={k: v for k, v in stats.items() if k != "tail"})
+    out.label("fuzz-campaign", "fuzz-empty-corpus" if case["empty_corpus"] else "fuzz-seeded-corpus")
+    if stats.get("exit") not in (0,):
+        raise RuntimeError("atheris campaign did not finish cleanly: %r" % (stats,))
+    if stats.get("libfuzzer_artifacts"):
+        out.violate("fuzz:target-crashed", "libFuzzer wrote %d crash artefacts: %s" % (stats["libfuzzer_artifacts"], stats.get("tail")))
+    for f in found:
+        out.violate(f["tag"], "found by atheris campaign %d: %s" % (case["campaign"], f.get("detail", "")[:600]))
+        out.replay_as[f["tag"]] = ("splitter", {"body": f["body"], "cuts": f["cuts"], "known": f["known"]})
+    return out
+
+
 # =============================== part 2: real server, scripted client ================================================
 
 REQ_KINDS = ["valid", "valid", "valid", "valid_pending", "valid_unknown", "availability_only", "garbage_json", "non_dict_json",
@@ -1191,6 +1324,10 @@ PARTS = [
     Part("downloader", downloader_strategy, lambda c: _run(downloader_async, c), 200, 1200, quick_shards=4, thorough_shards=16,
          essential=("peer:honest", "peer:never_connects", "peer:slow_connect", "peer:silent", "peer:refuses", "CT<DT", "CT>DT",
                     "honest_slower_than_connect_timeout", "no_honest_peer", "blob#1")),
+    Part("splitter", splitter_strategy, run_splitter, 1500, 20000, quick_shards=3, thorough_shards=16,
+         essential=("first_cut:at_header_end", "first_cut:inside_header", "first_cut:inside_body", "body_has_brace", "unknown_length")),
+    Part("atheris", None, run_fuzz_campaign, 0, 0, quick_shards=2, thorough_shards=16, enumerate_cases=fuzz_campaigns,
+         essential=("fuzz-campaign",)),
     Part("server", server_strategy, lambda c: _run(server_async, c), 300, 1500, quick_shards=4, thorough_shards=16,
          essential=tuple("req:" + k for k in sorted(set(REQ_KINDS)))),
     Part("client", client_strategy, lambda c: _run(client_async, c), 300, 1500, quick_shards=6, thorough_shards=16,
